@@ -85,3 +85,6 @@ func VerifC17Pending(peer p2pcommon.RemotePeer) int {
 func (br *BlockHashesReceiver) VerifC17Expire()   { br.timeout = time.Now().Add(-time.Hour) }
 func (br *BlockHashByNoReceiver) VerifC17Expire() { br.timeout = time.Now().Add(-time.Hour) }
 func (br *AncestorReceiver) VerifC17Expire()      { br.timeout = time.Now().Add(-time.Hour) }
+
+// VerifC17State: status (0 waiting, 1 canceled, 2 finished) and number of hashes collected.
+func (br *BlockHashesReceiver) VerifC17State() (status int, got int) { return int(br.status), len(br.got) }
